@@ -31,13 +31,13 @@ CHECKS = {
         design_ref="6/C05"),
     "C06": dict(
         category="model_checking", engine="Props2",
-        technique="TLA+ lifetime predicates (Props2: L1 keeper, L2 action life-cycle monitor, L2b stop-on-end) evaluated by TLC on states/steps/traces recorded from the real interpreter (generated programs with exhaustive short histories + random walks incl. action events early/late/twice/never, formula and library programs, the repository's own tests)",
-        text="Trace validation of the real interpreter against the TLA+ judge: every recorded State (about 4e4 quick) must give every running instance a listening keeper; every trace must satisfy the action life-cycle automaton (one Start, Stop only for started/not finished/not stopped actions) and every step in which a flow ends must Stop the unfinished actions it alone owns. Exhaustive only over histories of depth 2 per program; deeper histories are seeded walks.",
-        note="trusted: projection (harness/colang2.project_state), event classification in v2corpus.step_record; L3 (exact restart count of activated flows) judged only through L1; spec-level exploration of all histories is ColangSM's job",
+        technique="ColangSM (TLA+ transcription of the Colang 2.x interpreter over the real compiler output) model-checked by TLC over all bounded histories with the lifetime properties as invariants / action properties (L1S keeper, L2S action life-cycle monitor as ghost variable, L2bS stop-on-end, L2cS shared actions), every reachable specification state replayed into the real interpreter and compared (drift); plus the TLA+ lifetime predicates (Props2: L1, L2, L2b, L2c) evaluated by TLC on states/steps/traces recorded from the real interpreter (generated programs with exhaustive short histories + random walks incl. action events early/late/twice/never, formula and library programs, the repository's own tests)",
+        text="Trace validation of the real interpreter against the TLA+ judge: every recorded State (about 4e4 quick) must give every running instance a listening keeper; every trace must satisfy the action life-cycle automaton (one Start, Stop only for started/not finished/not stopped actions) and every step in which a flow ends must Stop the unfinished actions it alone owns. Specification level: all histories <= 3 (thorough 4) over each program's alphabet incl. action Started/Finished events early/late/twice x both tie-break picks for 60 (400) generated programs inside ColangSM's fragment; recorded corpus: exhaustive to depth 2, seeded walks beyond.",
+        note="trusted: projection (harness/colang2.project_state), event classification in v2corpus.step_record, ColangSM's fragment decision (export_sm); L3 (exact restart count of activated flows) judged through L1 and through drift against ColangSM's activation slice",
         design_ref="6/C06"),
     "C09": dict(
         category="model_checking", engine="Props2",
-        technique="TLA+ quiescence / index-exactness predicates (Props2.C09) evaluated by TLC on every State recorded after run_to_completion of the real interpreter over the same corpus; the from-scratch scan is computed in TLA+ from the projected heads and compared with the real event_matching_heads index and its reverse map",
+        technique="ColangSM model-checked by TLC over all bounded histories with QueueEmpty / Parked / IndexIsScan / DoneNoHeads as invariants and every reachable state replayed into the real interpreter (projection incl. dispatch index compared); plus TLA+ quiescence / index-exactness predicates (Props2.C09) evaluated by TLC on every State recorded after run_to_completion of the real interpreter over the same corpus; the from-scratch scan is computed in TLA+ from the projected heads and compared with the real event_matching_heads index and its reverse map",
         text="Every recorded state: queue empty, every live head of a listening flow parked on match/WaitForHeads, done instances hold no heads, referenced actions/children/parents exist, dispatch index == from-scratch scan (no stale, missing or duplicate entry), reverse map its inverse, flow_id_states consistent; exceptions escaping run_to_completion are reported too.",
         note="trusted: projection; exhaustive over histories of depth 2 per generated program, seeded walks beyond; library flows driven by scripted utterance events",
         design_ref="6/C09"),
@@ -55,9 +55,9 @@ CHECKS = {
         design_ref="6/C08"),
     "C10": dict(
         category="model_checking", engine="Isolation",
-        technique="TLA+ judge (Isolation.tla: StepBound(program size), fault-vs-abort differential); micro steps counted by wrapping the interpreter's slide / internal-event functions over the recorded corpus; fault injection at every statement position driven through the real RuntimeV2_x.process_events; observations judged by TLC",
+        technique="ColangSM model-checked by TLC over all bounded histories for NoFuelOut (no recursion budget of the specification exhausted = the call returns) and EventBound (internal events per call within StepBound), each history replayed into the real interpreter with micro-step counting; TLA+ judge (Isolation.tla: StepBound(program size), fault-vs-abort differential); micro steps counted by wrapping the interpreter's slide / internal-event functions over the recorded corpus; fault injection at every statement position driven through the real RuntimeV2_x.process_events; observations judged by TLC",
         text="(a) every run_to_completion of generated + hand-written programs (activated flows finishing/failing immediately, restart label, recursion with a wait) stays below a bound linear in compiled elements x live instances (hard cap and wall-clock alarm detect non-termination); (b) 9 fault kinds (bad expressions in assignment, condition, send/start/match arguments, invalid regex, priority, index) x 6 statement positions: nothing escapes process_events, a ColangError is produced, and witness flows in other loops produce exactly the outputs of the run where the statement is an explicit abort, for the same and later events.",
-        note="trusted: step counting wrappers, program templates; StepBound constants fixed from the corpus maximum with slack; exhaustive exploration of histories at spec level is ColangSM's job",
+        note="trusted: step counting wrappers, program templates; StepBound constants fixed from the corpus maximum with slack; ColangSM's fragment excludes parameters / priorities / named loops (those programs are covered by the recorded corpus only)",
         design_ref="6/C10"),
     "C11": dict(
         category="translation_validation", engine="Continuation",
